@@ -84,6 +84,12 @@ pub fn plan(prop: &str) -> Vec<Item> {
             v.push(it("sync_states", "pool=1,st=4,n=2", Some(1), 2));
             v.push(it("sync_states", "pool=1,st=8,n=2", Some(2), 3));
             v.push(it("fd_two", "pool=1,order=0", Some(2), 3));
+            for other in [0, 1, 2] {
+                v.push(it("excl_drop", &format!("pool=1,k=1,other={}", other), Some(2), 3));
+                v.push(it("excl_drop", &format!("pool=2,k=1,other={}", other), Some(if other == 2 { 2 } else { 1 }), 2));
+            }
+            v.push(it("excl_drop", "pool=1,k=2,other=0", Some(2), 3));
+            v.push(it("excl_drop", "pool=0,k=1,other=0", Some(2), 3));
             v.push(it("pipe_in_items", "pool=1,n=2,pat=1,conc=1", Some(1), 2));
             v.push(it("drop_obj", "pool=1,state=3,dropper=2", Some(1), 2));
             v.extend(prog_sweep(&[], &[1], Some(1), 2, Some(1), 1));
@@ -110,6 +116,10 @@ pub fn plan(prop: &str) -> Vec<Item> {
                 v.push(it("f2_dormant_race", &format!("pool={}", pool), Some(3), 4));
             }
             v.push(it("desync_then_sync", "pool=1", Some(3), 4));
+            for how in [0, 1] {
+                v.push(it("stale_entry", &format!("pool=1,how={}", how), Some(2), 3));
+                v.push(it("stale_entry", &format!("pool=2,how={}", how), Some(1), 2));
+            }
             for pool in [1, 2] {
                 v.push(it("pool_census", &format!("pool={},n=2,phases=0", pool), Some(if pool == 1 { 2 } else { 1 }), 2));
             }
@@ -366,11 +376,12 @@ pub fn owners(scenario: &str, part: &str) -> Vec<&'static str> {
         "panic_contain" => vec!["C15"],
         "pool_census" => vec!["C17", "C03"],
         "excl_susp" => vec!["C06", "C01", "C09", "C08"],
+        "excl_drop" => vec!["C07", "C01", "C04"],
         "order_ctx" => vec!["C02", "C03"],
         "pipe_in_items" => vec!["C11", "C03"],
         "pipe_out" => vec!["C12"],
         "pipe_drop_output" => vec!["C16"],
-        "f2_dormant_race" | "desync_then_sync" => vec!["C03"],
+        "f2_dormant_race" | "desync_then_sync" | "stale_entry" => vec!["C03"],
         "prog" => {
             let mut v = vec!["C03"];
             if part.contains("in:sync") || part.contains("in:fd.sync") {
